@@ -411,6 +411,20 @@ def generate(repo):
         L.append('  ' + ', '.join(f'({a}, {b})' for a, b in nd[i:i + 6]) + (',' if i + 6 < len(nd) else ''))
     L.append(']')
     L.append('')
+    # what "now" the now-relative forms count from: the single clock reading taken when the program starts (`UTC_NOW`, which the
+    # summary prints as `Datetime Now`), not a later reading (seeded change C14-d read the clock again after the stdin path list)
+    _, cpa, _ = find_fn(s4, 'cli_process_args')
+    cflat = re.sub(r'\s+', ' ', strip_trace(cpa))
+    now_lets = re.findall(r'let utc_now(?:: [^=]+)? = ([^;]+);', cflat)
+    if len(now_lets) != 1:
+        raise GenError(f"cli_process_args: expected exactly one `let utc_now = …;`, found {len(now_lets)}")
+    now_is_start = now_lets[0].strip() == 'UTC_NOW.with(|utc_now| *utc_now)' and 'Utc::now()' not in cflat
+    _, pdt, _ = find_fn(s4, 'process_dt')
+    if 'Utc::now()' in pdt:
+        now_is_start = False
+    L.append('/-- `cli_process_args` hands `process_dt` the program-start instant `UTC_NOW` as "now" (`true`); `false`: some other clock reading -/')
+    L.append(f'def RELATIVE_NOW_IS_PROGRAM_START : Bool := {"true" if now_is_start else "false"}')
+    L.append('')
     L.append('end S4V.Gen.CliTables')
     info = {'rows': len(rows), 'specifiers': specs, 'tz_entries': len(tz),
             'tz_ambiguous': sum(1 for _, v in tz if not v),
